@@ -128,6 +128,16 @@ func readJSON(path string, v interface{}) error {
 	return json.Unmarshal(b, v)
 }
 
+func knownOnly(rows []tableRow) []tableRow {
+	var out []tableRow
+	for _, r := range rows {
+		if r.Status != "fixed" {
+			out = append(out, r)
+		}
+	}
+	return out
+}
+
 func LoadTables() (*Tables, error) {
 	t := &Tables{Floors: map[string]map[string]int{}}
 	d := filepath.Join(verifDir(), "tables")
@@ -146,11 +156,27 @@ func LoadTables() (*Tables, error) {
 	return t, nil
 }
 
+// findRow: a row naming the property wins over a wildcard ("*") row.
 func findRow(rows []tableRow, prop, key string) *tableRow {
-	for i := range rows {
-		r := &rows[i]
-		if r.Key == key && (r.Property == prop || r.Property == "*" || strings.Contains(","+r.Property+",", ","+prop+",")) {
-			return r
+	return findRowMode(rows, prop, key, 0)
+}
+
+// mode 1: only rows that name the property; mode 2: only wildcard rows; 0: both (named first).
+func findRowMode(rows []tableRow, prop, key string, mode int) *tableRow {
+	if mode != 2 {
+		for i := range rows {
+			r := &rows[i]
+			if r.Key == key && r.Property != "*" && (r.Property == prop || strings.Contains(","+r.Property+",", ","+prop+",")) {
+				return r
+			}
+		}
+	}
+	if mode != 1 {
+		for i := range rows {
+			r := &rows[i]
+			if r.Key == key && r.Property == "*" {
+				return r
+			}
 		}
 	}
 	return nil
@@ -162,14 +188,18 @@ func (c *Check) Classify(t *Tables) {
 	for _, o := range c.Obs {
 		switch o.Verdict {
 		case Flag:
-			if r := findRow(t.Known, c.Prop, o.Key); r != nil && r.Status != "fixed" {
-				o.Verdict, o.Reason = Known, r.What
-			} else if r := findRow(t.Exceptions, c.Prop, o.Key); r != nil {
-				o.Verdict, o.Reason = Exception, r.Reason
-			} else if r := findRow(t.Baseline, c.Prop, o.Key); r != nil {
-				o.Verdict, o.Reason = Baseline, r.Reason
-			} else {
-				o.Verdict = Violation
+			o.Verdict = Violation
+			for _, mode := range []int{1, 2} { // rows naming this property first, then wildcard rows
+				if r := findRowMode(knownOnly(t.Known), c.Prop, o.Key, mode); r != nil {
+					o.Verdict, o.Reason = Known, r.What
+				} else if r := findRowMode(t.Exceptions, c.Prop, o.Key, mode); r != nil {
+					o.Verdict, o.Reason = Exception, r.Reason
+				} else if r := findRowMode(t.Baseline, c.Prop, o.Key, mode); r != nil {
+					o.Verdict, o.Reason = Baseline, r.Reason
+				} else {
+					continue
+				}
+				break
 			}
 		case Undecided:
 			// An undecided obligation may be excepted by name with a reason
